@@ -439,8 +439,11 @@ Definition safe_tok (t : str) : bool :=
 (** a value that can stand between double quotes (tabs allowed) *)
 Definition safe_quoted (t : str) : bool :=
   forallb (fun c => ((32 <=? c) || (c =? 9)) && negb (c =? 34) && negb (c =? 92) && negb (c =? 127)) t.
-Definition safe_name (t : str) : bool :=
-  match t with [] => false | _ => forallb (fun c => safe_char c && negb (c =? 47)) (under t) end.
+(** the job name a back-end derives from the step name *)
+Definition job_name (be : backend) (t : str) : str :=
+  match be with Slurm => slurm_job_name t | _ => under t end.
+Definition safe_name (be : backend) (t : str) : bool :=
+  match t with [] => false | _ => forallb (fun c => safe_char c && negb (c =? 47)) (job_name be t) end.
 
 Definition res_keys_str : list rkey :=
   [RQueue; RBank; RWalltime; RReservation; RGpus; RQos; RCpusPerTask; RTasksPerRs; RRsPerNode; RBind; RBindGpus].
@@ -551,7 +554,7 @@ Definition H15 (c : case) : bool :=
   && str_eqb (pieces_text (c_restart c)) (st_restart st)
   && pieces_wf (c_cmd c) && starts_cmd (c_cmd c)
   && pieces_wf (c_restart c) && match c_restart c with [] => true | r => starts_cmd r end
-  && safe_name (st_name st) && safe_quoted (oneline (st_desc st))
+  && safe_name (c_be c) (st_name st) && safe_quoted (oneline (st_desc st))
   && nodup_keys (st_res st)
   && negb (has (s "cmd") (st_res st)) && negb (has (s "restart") (st_res st))
   && count_ok (st_res st) RNodes && count_ok (st_res st) RTasks
